@@ -193,6 +193,10 @@ func (p *Pool[K, V]) Put(key K, val V) {
 		}
 	}
 
+	// evicting for capacity above may have emptied and unregistered the list
+	// for this key, so ensure it is registered before appending to it.
+	p.entries[key] = local
+
 	ent := &entry[K, V]{key: key, val: val}
 	local.appendEntry(ent, (*entry[K, V]).localList)
 	p.order.appendEntry(ent, (*entry[K, V]).globalList)
